@@ -60,7 +60,12 @@ class CcBaseCompiler(BuildCommand):
             cmd, self._always_flags, iterate(flags), ['-c', input]
         ))
         if deps:
-            result.extend(['-MMD', '-MF', deps])
+            # `-MP` makes the compiler emit an empty rule for every header
+            # itself. The Make backend's depfixer does the same after a
+            # successful compile, but a *failed* compile leaves a fresh,
+            # unfixed depfile behind; without the empty rules, deleting a
+            # header named there would make the build unable to proceed.
+            result.extend(['-MMD', '-MP', '-MF', deps])
         result.extend(['-o', output])
         return result
 
